@@ -41,6 +41,9 @@ CHECKS = {
  "C14": ("fault_enumeration",
          "Every macrostep boundary of every run is a snapshot point: the interpreter is serialized there and a fresh interpreter for the same document resumes from the text; TLC validates prefix . resume . continuation against the specification, in which Resume leaves every abstract variable unchanged (configuration, history, initialised data, data values, pending external events). State strings of other documents must be rejected (all ordered pairs of eight documents).",
          "5 C14", "fault enumeration over snapshot points: resumed runs validated against the TLA+ spec (Trace_Step with EnvResume)"),
+ "C15": ("exploration",
+         "TLC enumerates the bounded domain of Data values (strings over 13 characters incl. quote, backslash, control characters and a multi-byte character; numbers; arrays; maps with such keys; nesting) -- the oracle of the round trip is the identity, TLC contributes the exhaustive domain; every value goes through toJSON/fromJSON and Event->Data->Event. Robustness is a sanitizer side condition: all structural strings up to a length bound plus prefixes and byte mutations of seed texts are parsed by an ASan+UBSan build of Data.cpp+jsmn.c in forked children.",
+         "5 C15", "TLC-enumerated domain replayed through the implementation; ASan/UBSan side condition for the parser"),
  "C17": ("exploration",
          "TLC enumerates expression ASTs up to depth 2 with the value the TLA+ evaluator PromelaExpr!Eval defines (C integer semantics) and renders each with minimal and full parentheses; every vector is evaluated by evalAsData/evalAsBool of a live promela-datamodel interpreter in forked children (a crash is an outcome).",
          "5 C17", "TLC-generated oracle table (MC_PromelaExpr) replayed through the implementation"),
